@@ -2,6 +2,7 @@ package main
 
 import (
 	"fmt"
+	gosort "sort"
 	"go/constant"
 	"go/token"
 	"go/types"
@@ -123,6 +124,7 @@ var stringT = types.Typ[types.String]
 
 func (e *SpecEnv) heapRead(t types.Type, p Term) Term {
 	hn, hs := heapName(t), ArraySort(SPtr, e.u.W.SortOf(t))
+	e.u.W.heapTypes[hn] = t
 	return Select(e.cur.Heap(hn, hs), p)
 }
 
@@ -183,11 +185,11 @@ func (e *SpecEnv) eval(s *SExpr) SVal {
 			lo = e.eval(s.Args[1]).T
 		}
 		if a.T.Sort == SStr {
-			hi := app(SInt, "str.len", a.T)
+			hi := app(SInt, "s.len", a.T)
 			if s.Args[2] != nil {
 				hi = e.eval(s.Args[2]).T
 			}
-			return SVal{app(SStr, "str.sub", a.T, lo, hi), a.GT}
+			return SVal{app(SStr, "s.sub", a.T, lo, hi), a.GT}
 		}
 		hi := SlLen(a.T)
 		if s.Args[2] != nil {
@@ -216,7 +218,41 @@ func (e *SpecEnv) eval(s *SExpr) SVal {
 		if s.Op == "exists" {
 			q = "exists"
 		}
-		return SVal{Term{fmt.Sprintf("(%s (%s) %s)", q, strings.Join(decls, " "), body.T.S), SBool}, boolT}
+		qt := Term{fmt.Sprintf("(%s (%s) %s)", q, strings.Join(decls, " "), body.T.S), SBool}
+		if s.Op == "exists" && len(s.Vars) == 1 && e.x != nil && e.cur != nil && e.depth < 3 {
+			// equivalent reformulation that spares the solver the search for a witness:
+			// (exists i. B) == B[c1] || ... || B[cn] || (exists i. B) for any terms c;
+			// candidates are the integer locals of the current state
+			if _, sort := e.resolveType(s.Vars[0].Type); sort == SInt {
+				alts := []Term{}
+				seen := map[string]bool{}
+				var keys []*ssa.Alloc
+				for k, v := range e.cur.cells {
+					if al, ok := k.(*ssa.Alloc); ok {
+						if t, ok := v.(Term); ok && t.Sort == SInt && isInteger(al.Type().Underlying().(*types.Pointer).Elem()) {
+							keys = append(keys, al)
+						}
+					}
+				}
+				gosort.Slice(keys, func(i, j int) bool { return keys[i].Pos() < keys[j].Pos() })
+				for _, al := range keys {
+					t := e.cur.cells[al].(Term)
+					for _, c := range []Term{t, Add(t, IntLit(1)), Sub(t, IntLit(1))} {
+						if seen[c.S] || len(alts) >= 9 {
+							continue
+						}
+						seen[c.S] = true
+						inst := e.with(map[string]SVal{s.Vars[0].Name: {c, intT}}).eval(s.Args[0])
+						alts = append(alts, inst.T)
+					}
+				}
+				if len(alts) > 0 {
+					alts = append(alts, qt)
+					return SVal{Or(alts...), boolT}
+				}
+			}
+		}
+		return SVal{qt, boolT}
 	}
 	e.fail("cannot evaluate %s", s)
 	return SVal{}
@@ -427,7 +463,7 @@ func (e *SpecEnv) bin(s *SExpr) SVal {
 		return SVal{Not(Eq(a.T, b.T)), boolT}
 	case "<":
 		if a.T.Sort == SStr {
-			return SVal{app(SBool, "str.lt", a.T, b.T), boolT}
+			return SVal{app(SBool, "s.lt", a.T, b.T), boolT}
 		}
 		return SVal{Lt(a.T, b.T), boolT}
 	case "<=":
@@ -438,7 +474,7 @@ func (e *SpecEnv) bin(s *SExpr) SVal {
 		return SVal{Ge(a.T, b.T), boolT}
 	case "+":
 		if a.T.Sort == SStr {
-			return SVal{app(SStr, "str.cat", a.T, b.T), a.GT}
+			return SVal{app(SStr, "s.cat", a.T, b.T), a.GT}
 		}
 		return SVal{Add(a.T, b.T), numT(a, b)}
 	case "-":
@@ -552,7 +588,7 @@ func (e *SpecEnv) index(s *SExpr) SVal {
 		return SVal{Ite(Select(dom, i.T), Select(val, i.T), e.u.W.Zero(t.Elem())), t.Elem()}
 	case *types.Basic:
 		if a.T.Sort == SStr {
-			return SVal{app(SInt, "str.at", a.T, i.T), types.Typ[types.Byte]}
+			return SVal{app(SInt, "s.at", a.T, i.T), types.Typ[types.Byte]}
 		}
 	case *types.Array:
 		return SVal{Select(a.T, i.T), t.Elem()}
@@ -684,7 +720,7 @@ func (e *SpecEnv) call(s *SExpr) SVal {
 			case SSlice:
 				return SVal{SlLen(a.T), intT}
 			case SStr:
-				return SVal{app(SInt, "str.len", a.T), intT}
+				return SVal{app(SInt, "s.len", a.T), intT}
 			}
 			e.fail("len of %s", s.Args[1])
 		case "cap":
@@ -732,6 +768,27 @@ func (e *SpecEnv) call(s *SExpr) SVal {
 				return SVal{Ite(Le(a, b), a, b), numT(args[0], args[1])}
 			}
 			return SVal{Ite(Ge(a, b), a, b), numT(args[0], args[1])}
+		case "calls":
+			// ghost: how many times the named contracted function was called on this path
+			if len(s.Args) != 2 || s.Args[1].Kind != "str" {
+				e.fail("calls(\"(*pkg.T).Method\") expects a string literal")
+			}
+			if c, ok := e.cur.cells["calls:"+s.Args[1].Name].(Term); ok {
+				return SVal{c, intT}
+			}
+			return SVal{IntLit(0), intT}
+		case "mapdom", "mapval":
+			evalArgs()
+			a := args[0]
+			mt, ok := under(a.GT).(*types.Map)
+			if !ok {
+				e.fail("%s of non-map %s", fnx.Name, s.Args[1])
+			}
+			md, mv, _, ks, vs := mapHeaps(w, mt)
+			if fnx.Name == "mapdom" {
+				return SVal{Select(e.cur.Heap(md, ArraySort(SPtr, ArraySort(ks, SBool))), a.T), nil}
+			}
+			return SVal{Select(e.cur.Heap(mv, ArraySort(SPtr, ArraySort(ks, vs))), a.T), nil}
 		case "strlist":
 			// abstract content of a []string in the current heap
 			evalArgs()
@@ -842,7 +899,10 @@ func (e *SpecEnv) applyPure(pf *PureFunc, args []SVal) SVal {
 	if pf.Body == nil {
 		var ts []Term
 		for i, a := range args {
-			_, sort := pe.resolveType(pf.Params[i].Type)
+			sort := a.T.Sort
+			if pf.Params[i].Type != "_" {
+				_, sort = pe.resolveType(pf.Params[i].Type)
+			}
 			t := a.T
 			if sort == SReal {
 				t = ToReal(t)
@@ -857,8 +917,12 @@ func (e *SpecEnv) applyPure(pf *PureFunc, args []SVal) SVal {
 	}
 	vars := map[string]SVal{}
 	for i, p := range pf.Params {
-		gt, sort := pe.resolveType(p.Type)
 		a := args[i]
+		if p.Type == "_" {
+			vars[p.Name] = a
+			continue
+		}
+		gt, sort := pe.resolveType(p.Type)
 		if gt != nil && (a.GT == nil || isUntypedNil(a.GT)) {
 			a.GT = gt
 		}
